@@ -1,6 +1,6 @@
 // C52: mod_cors callbacks (corsHandler / corsPreflightHandler, ruleConvert, matchOriginAllowed, addVaryHeader)
 // vs model Cors.v.
-// input : [rule req rsp handler]
+// input : [rules req rsp handler]   rules = [[match rule] ...] (match realised by the rule's condition)
 //   rule = [origins:LB cred:bool expose:LB methods:LB headers:LB maxage:opt Z]
 //   req  = [method:B originValues:LB acrmValues:LB hasRules:bool]
 //   rsp  = [vary acao acac acam acah acma aceh]  (each LB = the value lines of that response header)
@@ -38,18 +38,30 @@ func hdrVal(h bfe_http.Header) hv.Val {
 
 func impl(in hv.Val) hv.Val {
 	top := hv.AsList(in)
-	rule, req, rsp := hv.AsList(top[0]), hv.AsList(top[1]), hv.AsList(top[2])
+	req, rsp := hv.AsList(top[1]), hv.AsList(top[2])
 	preflight := hv.AsInt(top[3]) == 1
-	raw := mod_cors.CorsRuleRaw{
-		AccessControlAllowOrigins:     strs(rule[0]),
-		AccessControlAllowCredentials: hv.AsBool(rule[1]),
-		AccessControlExposeHeaders:    strs(rule[2]),
-		AccessControlAllowMethods:     strs(rule[3]),
-		AccessControlAllowHeaders:     strs(rule[4]),
-	}
-	if ma := hv.AsList(rule[5]); len(ma) == 1 {
-		v := int(hv.AsInt(ma[0]))
-		raw.AccessControlMaxAge = &v
+	var raws []mod_cors.CorsRuleRaw
+	for k, mr := range hv.AsList(top[0]) {
+		pair := hv.AsList(mr)
+		rule := hv.AsList(pair[1])
+		raw := mod_cors.CorsRuleRaw{
+			AccessControlAllowOrigins:     strs(rule[0]),
+			AccessControlAllowCredentials: hv.AsBool(rule[1]),
+			AccessControlExposeHeaders:    strs(rule[2]),
+			AccessControlAllowMethods:     strs(rule[3]),
+			AccessControlAllowHeaders:     strs(rule[4]),
+		}
+		if ma := hv.AsList(rule[5]); len(ma) == 1 {
+			v := int(hv.AsInt(ma[0]))
+			raw.AccessControlMaxAge = &v
+		}
+		// conditions: true / false, in two spellings each (the request host is example.org)
+		if hv.AsBool(pair[0]) {
+			raw.Cond = []string{"default_t()", "default_t() && !(!default_t())"}[k%2]
+		} else {
+			raw.Cond = []string{"!default_t()", "default_t() && !default_t()"}[k%2]
+		}
+		raws = append(raws, raw)
 	}
 	reqH := bfe_http.Header{}
 	if o := strs(req[1]); len(o) > 0 {
@@ -68,7 +80,7 @@ func impl(in hv.Val) hv.Val {
 			rspH[n] = vs
 		}
 	}
-	ret, h, err := mod_cors.VerifCorsC52(raw, product, hv.AsStr(req[0]), reqH, rspH, preflight)
+	ret, h, err := mod_cors.VerifCorsC52(raws, product, hv.AsStr(req[0]), reqH, rspH, preflight)
 	if err != nil {
 		return hv.Err(1)
 	}
@@ -124,11 +136,16 @@ func genVaryLine(r *hv.Rng) string {
 	return s
 }
 
-func gen(r *hv.Rng, i int, tier string) (string, hv.Val) {
+// clean: avoid the combinations ruleConvert rejects (used for all but one rule of a multi-rule list)
+func genRule(r *hv.Rng, clean bool) (string, []string, hv.Val) {
 	class := ""
 	// ---- rule
 	var allow []string
-	switch k := r.Intn(10); {
+	kk := r.Intn(10)
+	if clean && kk == 9 {
+		kk = 5
+	}
+	switch k := kk; {
 	case k < 2:
 		allow = []string{"*"}
 		class = "star"
@@ -152,7 +169,7 @@ func gen(r *hv.Rng, i int, tier string) (string, hv.Val) {
 		class = "mixed"
 	}
 	cred := r.Chance(1, 3)
-	if class == "star" && r.Chance(9, 10) {
+	if class == "star" && (clean || r.Chance(9, 10)) {
 		cred = false
 	}
 	expose := pickSome(r, hnames, 2)
@@ -167,7 +184,7 @@ func gen(r *hv.Rng, i int, tier string) (string, hv.Val) {
 	if r.Chance(1, 12) {
 		meths = []string{"*"}
 	}
-	if r.Chance(1, 25) { // invalid field values
+	if !clean && r.Chance(1, 25) { // invalid field values
 		switch r.Intn(4) {
 		case 0:
 			meths = append(meths, r.Pick([]string{"get", "*", "FOO", "X*"}))
@@ -182,7 +199,11 @@ func gen(r *hv.Rng, i int, tier string) (string, hv.Val) {
 	var maxage hv.Val = hv.None()
 	if r.Chance(1, 2) {
 		n := 0
-		switch r.Intn(14) {
+		km := r.Intn(14)
+		if clean && km < 2 {
+			km = 4
+		}
+		switch km {
 		case 0:
 			n = 86401
 		case 1:
@@ -199,6 +220,31 @@ func gen(r *hv.Rng, i int, tier string) (string, hv.Val) {
 		maxage = hv.Opt(hv.I(n))
 	}
 	rule := hv.L{hv.LS(allow), hv.Bool(cred), hv.LS(expose), hv.LS(meths), hv.LS(heads), maxage}
+	return class, allow, rule
+}
+
+func gen(r *hv.Rng, i int, tier string) (string, hv.Val) {
+	// ---- rule list: 0..4 rules with match flags; class and origin choice follow the first matching rule
+	nr := []int{1, 1, 1, 1, 1, 2, 2, 2, 3, 3, 4, 0}[r.Intn(12)]
+	dirty := r.Intn(nr + 1) // index of the one rule that may be invalid
+	rules := hv.L{}
+	class := "nomatch"
+	var allow []string
+	found := false
+	for k := 0; k < nr; k++ {
+		c, a, rule := genRule(r, nr > 1 && k != dirty)
+		m := r.Chance(3, 5)
+		if nr == 1 && r.Chance(9, 10) {
+			m = true
+		}
+		if m && !found {
+			found, class, allow = true, c, a
+		}
+		rules = append(rules, hv.L{hv.Bool(m), rule})
+	}
+	if nr > 1 && found {
+		class = "multi-" + class
+	}
 	// ---- request
 	handler := r.Intn(2)
 	method := "GET"
@@ -276,7 +322,7 @@ func gen(r *hv.Rng, i int, tier string) (string, hv.Val) {
 	} else {
 		class += "/preflight"
 	}
-	return class, hv.L{rule, req, hv.L(rsp), hv.I(handler)}
+	return class, hv.L{rules, req, hv.L(rsp), hv.I(handler)}
 }
 
 func main() {
